@@ -1,5 +1,5 @@
 """Check C04 (and the relation clauses used by C06): Relations family."""
-import json, os, random, shutil, sys, time, concurrent.futures as cf
+import json, os, random, re, shutil, sys, time, concurrent.futures as cf
 sys.path.insert(0, os.path.dirname(os.path.abspath(__file__)))
 import vlib, fam
 
@@ -75,6 +75,52 @@ def run_scenario(prop, tier, scn, w, vh, seed, fix):
     return out
 
 
+HIST_CLAUSES = ["RelationResult", "ExactlyOneNotice", "NoStray", "NoStaleRelation"]
+
+
+def rel_histories(tier, rng):
+    hs = []
+    def H(tk, term, ops):
+        hs.append({"id": len(hs) + 1, "tk": tk, "term": term, "ops": [{"c": c, "op": o} for c, o in ops]})
+    terms = {"pid": ["kill", "normal"], "name": ["kill", "normal", "unregister"], "alias": ["kill", "unregister"], "event": ["kill", "normal", "unregister"]}
+    for tk, ts in terms.items():
+        for term in ts:
+            # one consumer with both kinds (either order), alone and next to others; one kind taken back
+            H(tk, term, [(1, "link"), (1, "monitor")])
+            H(tk, term, [(1, "monitor"), (1, "link"), (2, "link"), (3, "monitor")])
+            H(tk, term, [(1, "link"), (1, "monitor"), (1, "unlink"), (2, "monitor")])
+            H(tk, term, [(1, "link"), (1, "monitor"), (1, "demonitor"), (2, "link"), (2, "link")])
+            H(tk, term, [(1, "link"), (2, "link"), (2, "monitor"), (3, "link"), (3, "monitor"), (3, "unlink"), (3, "demonitor"), (1, "demonitor")])
+    ops = ["link", "monitor", "link", "monitor", "unlink", "demonitor"]
+    for _ in range(60 if tier == "quick" else 1500):
+        tk = rng.choice(list(terms)); term = rng.choice(terms[tk])
+        H(tk, term, [(rng.randint(1, 3), rng.choice(ops)) for _ in range(rng.randint(1, 9))])
+    return hs
+
+
+def run_hist(tier, w, vh, seed):
+    rng = random.Random(seed * 29 + 7)
+    hs = rel_histories(tier, rng)
+    inp = os.path.join(w, "relhist_in.json"); out = os.path.join(w, "relhist_trace.ndjson")
+    json.dump({"histories": hs}, open(inp, "w"))
+    rc, so, se, to = vlib.run_vh(vh, ["relhist", "-in", inp, "-out", out], timeout=600)
+    if rc != 0 or to:
+        raise vlib.Infra("relhist harness failed rc=%s: %s" % (rc, (se or so)[-1200:]))
+    lines = open(out).read().splitlines()
+    fam.write_mc(w, "MC_RelHT", "RelH", {}, {"TraceFile": '"relhist_trace.ndjson"', "Checks": fam.tla_set(HIST_CLAUSES)}, constraint="HWM", postcondition="TraceAccepted")
+    r = vlib.run_tlc(w, "MC_RelHT.tla", "MC_RelHT.cfg", workers=1, timeout=900)
+    if re.search(r'TRACE_REJECTED_AT_LINE', r.out):
+        raise vlib.Infra("RelH.tla could not consume the trace: %s" % r.out[-800:])
+    hits = [(m.group(1), int(m.group(2))) for m in re.finditer(r'"CLAUSE_VIOLATED", "(\w+)", "LINE", (\d+)', r.out)]
+    if r.rc != 0 and not hits:
+        raise vlib.Infra("RelH validation failed: %s" % (r.error or r.out[-1200:]))
+    viol = []
+    for clause, line in hits:
+        e = json.loads(lines[line - 1])
+        viol.append({"clause": clause, "plan": "history %s %s %s" % (e["tk"], e["term"], [(o["c"], o["op"]) for o in e["ops"]]), "at_event": "results %s exits %s downs %s other %s left %d" % (e["res"], e["exits"], e["downs"], e["other"], e["left"]), "history": e})
+    return {"histories": len(hs), "violations": viol, "states": r.distinct, "generated": r.generated, "sample": hs[rng.randrange(len(hs))]}
+
+
 def main(prop, tier):
     t0 = time.time(); seed = vlib.seed()
     w = vlib.scratch("rel_%s_" % prop)
@@ -89,9 +135,12 @@ def main(prop, tier):
             for f in futs:
                 results.append(f.result())
         violations = [(r["scenario"], v) for r in results for v in r["violations"]]
-        execs = sum(r["harness"]["plans"] for r in results if r["trace"]["accepted"])
+        hist = run_hist(tier, w, vh, seed)
+        violations += [("hist", v) for v in hist["violations"]]
+        execs = sum(r["harness"]["plans"] for r in results if r["trace"]["accepted"]) + hist["histories"] - len(hist["violations"])
         drift = [r["trace"] for r in results if r["trace"].get("drift")]
-        cov = {"states": sum(r["u1"]["distinct"] for r in results), "transitions": sum(r["u1"]["generated"] for r in results),
+        cov = {"relation_histories": hist["histories"], "relation_history_clauses": HIST_CLAUSES, "relation_history_sample": hist["sample"],
+               "states": sum(r["u1"]["distinct"] for r in results) + hist["states"], "transitions": sum(r["u1"]["generated"] for r in results) + hist["generated"],
                "traces_validated_against_impl": execs,
                "samples": [{"scenario": r["scenario"], "plan": r["sample_plan"]} for r in results[:3]],
                "model_edges": sum(r["graph"]["edges"] for r in results), "plans_replayed": sum(r["plans"] for r in results),
